@@ -1,8 +1,148 @@
 import Flatland.JsonUtil
+import Flatland.Scalar
+import Flatland.Generated.C04Tables
 open Lean Flatland.J
 namespace Flatland.Run.C04
+open Flatland.Scalar
 
-/-- JSON case in, JSON observation out (stub until the model of C04 is written). -/
-def run (_j : Json) : Except String Json := .error "model runner for C04 not implemented yet"
+/-! JSON glue for the scalar model (shared by the C04 and C18 runners). -/
+
+def hexVal (c : Char) : Option Nat :=
+  if '0' ≤ c && c ≤ '9' then some (c.toNat - 48)
+  else if 'a' ≤ c && c ≤ 'f' then some (c.toNat - 87)
+  else if 'A' ≤ c && c ≤ 'F' then some (c.toNat - 55)
+  else none
+
+/-- Python `hex(i)`: `-0x1f` -/
+def parseHex (s : String) : Except String Int := do
+  let cs := s.toList
+  let (neg, cs) := match cs with | '-' :: r => (true, r) | r => (false, r)
+  let cs ← match cs with | '0' :: 'x' :: r => pure r | _ => throw s!"bad hex int {s}"
+  let mut n : Nat := 0
+  for c in cs do
+    match hexVal c with
+    | some d => n := n * 16 + d
+    | none => throw s!"bad hex digit in {s}"
+  return if neg then - (n : Int) else n
+
+def hexDigit (d : Nat) : Char := if d < 10 then Char.ofNat (48 + d) else Char.ofNat (87 + d)
+
+partial def natHex (n : Nat) (acc : List Char := []) : List Char :=
+  if n < 16 then hexDigit n :: acc else natHex (n / 16) (hexDigit (n % 16) :: acc)
+
+def toHex (i : Int) : String :=
+  let body := "0x" ++ String.ofList (natHex i.natAbs)
+  if i < 0 then "-" ++ body else body
+
+def parseTok (j : Json) : Except String Tok := do
+  return { id := ← cfld j "id", str := ← cfld j "str",
+           fmt := ← optOf chars (← fld j "fmt"),
+           neg := ← optOf bool (← fld j "neg"),
+           truthy := ← bfld j "truthy",
+           toInt := ← optOf (fun x => do parseHex (← str x)) (← fld j "int") }
+
+def natsOf (j : Json) : Except String (List Nat) := listOf nat j
+
+def parseNative (j : Json) : Except String Native := do
+  if isNull j then return .none
+  match (← sfld j "t") with
+  | "str" => return .str (← cfld j "v")
+  | "int" => return .int (← parseHex (← sfld j "v"))
+  | "bool" => return .bool (← bfld j "v")
+  | "date" => match (← natsOf (← fld j "v")) with
+              | [y, m, d] => return .date y m d
+              | _ => throw "bad date"
+  | "time" => match (← natsOf (← fld j "v")) with
+              | [h, mi, s, us] => return .time h mi s us
+              | _ => throw "bad time"
+  | "datetime" => match (← natsOf (← fld j "v")) with
+                  | [y, m, d, h, mi, s, us] => return .datetime y m d h mi s us
+                  | _ => throw "bad datetime"
+  | "float" => return .float (← parseTok (← fld j "tok"))
+  | "decimal" => return .decimal (← parseTok (← fld j "tok"))
+  | "other" => return .other (← cfld j "v") (← bfld j "truthy")
+  | t => throw s!"bad native tag {t}"
+
+def ofNats (l : List Nat) : Json := ofList ofNat l
+
+/-- text in OUTPUT is a list of code points: the harness core splits the driver's output with
+    `str.splitlines()`, which also breaks at U+0085, U+2028, U+2029 -/
+def ofText (s : List Char) : Json := ofList (fun c => ofNat c.toNat) s
+
+def ofNative : Native → Json
+  | .none => Json.null
+  | .str s => obj [("t", "str"), ("v", ofText s)]
+  | .int i => obj [("t", "int"), ("v", Json.str (toHex i))]
+  | .bool b => obj [("t", "bool"), ("v", Json.bool b)]
+  | .date y m d => obj [("t", "date"), ("v", ofNats [y, m, d])]
+  | .time h mi s us => obj [("t", "time"), ("v", ofNats [h, mi, s, us])]
+  | .datetime y m d h mi s us => obj [("t", "datetime"), ("v", ofNats [y, m, d, h, mi, s, us])]
+  | .float t => obj [("t", "float"), ("id", ofChars t.id)]
+  | .decimal t => obj [("t", "decimal"), ("id", ofChars t.id)]
+  | .other text truthy => obj [("t", "other"), ("v", ofText text), ("truthy", Json.bool truthy)]
+
+partial def parseKind (j : Json) : Except String Kind := do
+  match (← sfld j "k") with
+  | "string" => return .string (← bfld j "strip")
+  | "integer" => return .integer (← bfld j "signed") (← nfld j "width")
+  | "float" => return .float (← bfld j "signed")
+  | "decimal" => return .decimal (← bfld j "signed")
+  | "boolean" => return .boolean (← cfld j "true") (← cfld j "false")
+                   (← listOf chars (← fld j "tsyn")) (← listOf chars (← fld j "fsyn"))
+  | "boolean_default" => return Flatland.Generated.C04.booleanDefault
+  | "date" => return .date (← bfld j "strip")
+  | "time" => return .time (← bfld j "strip")
+  | "datetime" => return .datetime (← bfld j "strip")
+  | "constrained" =>
+    let child ← parseKind (← fld j "child")
+    let vj ← fld j "valid"
+    let valid ← match (← sfld vj "v") with
+      | "never" => pure Valid.never
+      | "always" => pure Valid.always
+      | "oneof" => do pure (Valid.oneOf (← listOf parseNative (← fld vj "vals")))
+      | s => throw s!"bad valid {s}"
+    return .constrained child valid
+  | k => throw s!"bad kind {k}"
+
+/-- the opaque float()/Decimal() results recorded by the harness for this case -/
+def parseConv (j : Json) : Except String (Bool → Native → Option (Option Tok)) := do
+  let entries ← (← arr j).mapM fun e => do
+    let dec ← bfld e "dec"
+    let key ← parseNative (← fld e "key")
+    let tok ← optOf parseTok (← fld e "tok")
+    return (dec, key, tok)
+  return fun dec x => (entries.find? fun e => e.1 == dec && e.2.1 == x).map (·.2.2)
+
+def raiseName : Raise → String
+  | .valueError => "ValueError"
+  | .tableMiss => "HARNESS-TABLE-MISS"
+
+def setJson (r : Except Raise SetResult) : Json :=
+  match r with
+  | .error e => obj [("exc", Json.str (raiseName e)), ("flag", Json.null), ("value", Json.null),
+                     ("u", Json.null), ("signals", Json.null)]
+  | .ok r => obj [("exc", Json.null), ("flag", Json.bool r.flag), ("value", ofNative r.st.value),
+                  ("u", ofText r.st.u), ("signals", ofList Json.bool r.signals)]
+
+def envOf (j : Json) : Except String Env := do
+  let conv ← parseConv (fldD j "conv" (Json.arr #[]))
+  return { T := Flatland.Generated.C04.pyTables, conv := conv }
+
+/-- one scalar case: `el.set(x)`, and when that succeeded `el2.set(el.u)` on a fresh element -/
+def runScalar (j : Json) : Except String Json := do
+  let E ← envOf j
+  let k ← parseKind (← fld j "kind")
+  let x ← parseNative (← fld j "x")
+  let r := setScalar E k x
+  let first := setJson r
+  let reset := match r with
+    | .ok res => if res.flag then setJson (setScalar E k (.str res.st.u)) else Json.null
+    | .error _ => Json.null
+  return obj [("set", first), ("reset", reset)]
+
+def run (j : Json) : Except String Json := do
+  match (← sfld j "mode") with
+  | "scalar" => runScalar j
+  | m => throw s!"bad mode {m}"
 
 end Flatland.Run.C04
